@@ -24,6 +24,7 @@ func (c *Catalog) AddTag(name, title string) error {
 	}
 
 	t := NewTag(name, title)
+	t.declared = true
 
 	c.Tags.Set(t.Name, t)
 
@@ -104,8 +105,9 @@ func (c *Catalog) tagsFromTagsDirective(d *directive.Directive) ([]*Tag, *jerr.J
 	for _, name := range d.UnnamedParameter() {
 		tn := TagName(name)
 
+		// A tag generated from a path of another interaction is not a defined tag.
 		t, ok := c.Tags.Get(tn)
-		if !ok {
+		if !ok || !t.declared {
 			return nil, d.KeywordError(fmt.Sprintf("%s %q", jerr.TagNotFound, tn))
 		}
 
